@@ -1,0 +1,214 @@
+//go:build verif
+
+package dns_naming
+
+import (
+	"io"
+	"net"
+	"time"
+)
+
+// Ghost vocabulary of the contract harnesses (build tag verif only).
+// govc gives these functions their logical meaning; the Go bodies are what a
+// replayed counterexample executes.
+
+type verifFailure struct{ kind, msg string }
+
+func (v verifFailure) Error() string { return "verif " + v.kind + " failed: " + v.msg }
+
+// vRequires states a precondition (assumed when the harness is verified,
+// proved at every call site when the contract is applied).
+func vRequires(b bool) {
+	if !b {
+		panic(verifFailure{"requires", ""})
+	}
+}
+
+// vEnsures states a postcondition (proved when the harness is verified,
+// assumed at call sites).
+func vEnsures(b bool) {
+	if !b {
+		panic(verifFailure{"ensures", ""})
+	}
+}
+
+// vAssert states a lemma conclusion.
+func vAssert(b bool) {
+	if !b {
+		panic(verifFailure{"assert", ""})
+	}
+}
+
+// vAssume adds an unchecked assumption (only allowed in verif_extern_ contracts).
+func vAssume(b bool) {
+	if !b {
+		panic(verifFailure{"requires", "assume"})
+	}
+}
+
+// vCanary marks a point that must be reachable under the hypotheses in force.
+func vCanary() {}
+
+// vUnreachable marks a point that must not be reachable.
+func vUnreachable() { panic(verifFailure{"unreachable", ""}) }
+
+// vMapAll: f holds for every entry of m (a universal quantifier over the keys present).
+func vMapAll[K comparable, V any](m map[K]V, f func(k K, v V) bool) bool {
+	for k, v := range m {
+		if !f(k, v) {
+			return false
+		}
+	}
+	return true
+}
+
+// vForall is a bounded universal quantifier over lo <= i < hi.
+func vForall(lo, hi int, f func(i int) bool) bool {
+	for i := lo; i < hi; i++ {
+		if !f(i) {
+			return false
+		}
+	}
+	return true
+}
+
+// vExists is a bounded existential quantifier over lo <= i < hi.
+func vExists(lo, hi int, f func(i int) bool) bool {
+	for i := lo; i < hi; i++ {
+		if f(i) {
+			return true
+		}
+	}
+	return false
+}
+
+// vSameRegion: a and b are views of the same backing array.
+func vSameRegion(a, b []byte) bool {
+	if cap(a) == 0 || cap(b) == 0 {
+		return cap(a) == cap(b)
+	}
+	return &a[:cap(a)][cap(a)-1] == &b[:cap(b)][cap(b)-1]
+}
+
+// vOffset: index of a[0] relative to b[0] (meaningful when vSameRegion(a, b)).
+func vOffset(a, b []byte) int { return cap(b) - cap(a) }
+
+// vNoAlias: the capacity ranges of a and b do not overlap.
+func vNoAlias(a, b []byte) bool {
+	if cap(a) == 0 || cap(b) == 0 {
+		return true
+	}
+	if !vSameRegion(a, b) {
+		return true
+	}
+	return false
+}
+
+// vIsFreshRegion: the backing array of a was allocated during the call.
+func vIsFreshRegion(a []byte) bool { return true }
+
+// vModifiesBytes declares that the target may write s[0:len(s)] (and no other byte memory).
+func vModifiesBytes(s []byte) {}
+
+// vModifiesAll declares that the target may write any memory.
+func vModifiesAll() {}
+
+// vModifiesObj declares that the target may write any field of the object p points to.
+func vModifiesObj(p interface{}) {}
+
+// vModifiesField declares that the target may write the named fields of *p.
+func vModifiesField(p interface{}, fields ...string) {}
+
+// vModifiesHeap declares that the target may write heap objects, maps and
+// non-byte slices, and byte memory it allocates itself, but no byte of a
+// pre-existing buffer.
+func vModifiesHeap() {}
+
+// vModifiesMems declares that the target may write (only) the memories whose
+// name contains one of the given substrings, e.g. "packet.Host/" for every
+// field of every Host object, "map[net/netip.Addr]" for maps of that type.
+func vModifiesMems(patterns ...string) {}
+
+// vAtEntry (loop invariants only): the value x had when the loop was entered.
+func vAtEntry(x int) int { return x }
+
+// vKeptOrNew (loop invariants only): s still has the backing array, offset and
+// capacity it had when the loop was entered, or a backing array allocated since.
+func vKeptOrNew(s []byte) bool { return true }
+
+// Ghost wire log: frames handed to the session connection (Conn.WriteTo).
+// vWireCount is how many were sent so far, vWireLast the latest one.
+//
+// Natively (counterexample replays) the log is filled by verifConn, a recording
+// net.PacketConn the replay builder installs as the session connection.
+func vWireCount() int { return len(verifWire) }
+func vWireLast() []byte {
+	if n := len(verifWire); n > 0 {
+		return verifWire[n-1]
+	}
+	return nil
+}
+
+var verifWire [][]byte
+var verifWirePred func(w []byte) bool
+
+type verifConn struct{}
+
+func (verifConn) ReadFrom(p []byte) (int, net.Addr, error) { return 0, nil, io.EOF }
+func (verifConn) WriteTo(p []byte, addr net.Addr) (int, error) {
+	f := append([]byte(nil), p...)
+	verifWire = append(verifWire, f)
+	if verifWirePred != nil && !verifWirePred(f) {
+		panic(verifFailure{"wire-each", ""})
+	}
+	return len(p), nil
+}
+func (verifConn) Close() error                       { return nil }
+func (verifConn) LocalAddr() net.Addr                { return nil }
+func (verifConn) SetDeadline(t time.Time) error      { return nil }
+func (verifConn) SetReadDeadline(t time.Time) error  { return nil }
+func (verifConn) SetWriteDeadline(t time.Time) error { return nil }
+
+// vSpawned: number of go statements executed so far (ghost). Natively it is not observable and
+// reports -1: write postconditions as  s := vSpawned(); vEnsures(s < 0 || s == s0+1).
+func vSpawned() int { return -1 }
+
+// vTrusted marks the rest of the current path of a contract harness as NOT verified (the
+// contract's postconditions are still used at call sites): the case is reported as an
+// assumption in the evidence of every check that relies on the contract.
+func vTrusted(why string) {}
+
+// vModifiesElems: like vModifiesBytes for a slice of any element type: the target may write the
+// elements s[0:len(s)] (give s[:cap(s)] to include the spare capacity).
+func vModifiesElems[T any](s []T) {}
+
+// vBorrowed: the buffer is only lent to the target for the duration of the call: no view of it
+// (no sub-slice, no string sharing its bytes) may be stored in memory that outlives the call.
+// Checked at every store of the code under verification; in a contract it also tells callers
+// that passing a borrowed buffer for this parameter is fine.
+func vBorrowed(b []byte) {}
+
+// vModifiesWire declares that the target may send frames.
+func vModifiesWire() {}
+
+// vWireEach: every frame handed to the connection from here to the end of the harness
+// satisfies pred, evaluated in the state at the moment of the send.
+func vWireEach(pred func(w []byte) bool) { verifWirePred = pred }
+
+// vFuel sets how many times recursive spec functions are unfolded in this harness (default 1).
+func vFuel(n int) {}
+
+// vReveal makes the definitions of the spec_opq_* functions visible in this
+// harness (elsewhere they are uninterpreted, so proofs go by congruence and
+// lemma instances instead of bit-blasting).
+func vReveal() {}
+
+// vStrictLen demands that the target never reslices a buffer beyond its length
+// (so that its result cannot depend on spare capacity).
+func vStrictLen() {}
+
+// vAllocs is the ghost counter of SSA-level allocations.
+func vAllocs() uint64 { return 0 }
+
+// verif_true is the default invariant of range loops over maps and strings.
+func verif_true() bool { return true }
